@@ -1,5 +1,7 @@
 package p9
 
+import "io"
+
 // C13: negotiated msize is never exceeded.
 
 // verifSizedFile is a backend whose ReadAt/Readdir return nondeterministic
@@ -67,4 +69,140 @@ func VerifH_C13_ServerRread() {
 		verifAssert(!isErr, "a count that fits is served")
 		verifAssert(f.readCalls == 1 && uint32(f.lastLen) == count, "backend asked for the requested count when it fits")
 	}
+}
+
+// ---- client side ----
+
+// verifPeer is a scripted 9P peer: it announces (msize, version) and then
+// answers Twrite/Tread/Tclunk/Txattrwalk like a server would, recording the
+// size of every request frame.
+type verifPeer struct {
+	msize   uint32
+	vers    string
+	hdr     []byte // first write of the current request (7 bytes)
+	fixed   []byte // second write (fixed part)
+	nwrites int
+	reqLen  uint64
+	reply   []byte
+	pos     int
+
+	// observations
+	requests   int
+	maxReq     uint64 // largest request frame seen after negotiation
+	maxReply   uint64 // largest reply frame a read request allows
+	fileSize   uint64 // bytes available to reads
+	shortWrite bool
+}
+
+func (c *verifPeer) Write(p []byte) (int, error) {
+	c.nwrites++
+	switch c.nwrites {
+	case 1:
+		c.hdr = append([]byte(nil), p...)
+	case 2:
+		c.fixed = append([]byte(nil), p...)
+	}
+	c.reqLen += uint64(len(p))
+	return len(p), nil
+}
+
+func verifLE32(b []byte) uint32 {
+	return uint32(b[0]) | uint32(b[1])<<8 | uint32(b[2])<<16 | uint32(b[3])<<24
+}
+
+func (c *verifPeer) Read(p []byte) (int, error) {
+	if c.pos >= len(c.reply) {
+		if len(c.hdr) != 7 {
+			return 0, io.EOF
+		}
+		tg := uint16(c.hdr[5]) | uint16(c.hdr[6])<<8
+		typ := c.hdr[4]
+		var m message
+		switch typ {
+		case 100:
+			m = &rversion{MSize: c.msize, Version: c.vers}
+		case 118: // Twrite: fid[4] offset[8] count[4]
+			cnt := verifLE32(c.fixed[12:16])
+			m = &rwrite{Count: cnt}
+		case 116: // Tread: fid[4] offset[8] count[4]
+			cnt := verifLE32(c.fixed[12:16])
+			if uint64(cnt)+11 > c.maxReply {
+				c.maxReply = uint64(cnt) + 11
+			}
+			m = &rread{Data: nil}
+		case 120:
+			m = &rclunk{}
+		default:
+			m = &rlerror{Error: 5}
+		}
+		if typ != 100 {
+			c.requests++
+			if c.reqLen > c.maxReq {
+				c.maxReq = c.reqLen
+			}
+			verifAssert(uint64(verifLE32(c.hdr[0:4])) == c.reqLen, "request size field == bytes written")
+		}
+		c.hdr, c.fixed, c.nwrites, c.reqLen = nil, nil, 0, 0
+		f, _, _ := specFrame(tg, m)
+		c.reply = f
+		c.pos = 0
+	}
+	n := copy(p, c.reply[c.pos:])
+	c.pos += n
+	return n, nil
+}
+
+func (c *verifPeer) Close() error { return nil }
+
+// VerifH_C13_ClientWrite: after negotiating with a peer that announces an
+// arbitrary msize, every Twrite produced by WriteAt fits in that msize.
+func VerifH_C13_ClientWrite() {
+	peer := &verifPeer{msize: verifNondetU32(), vers: "9P2000.L"}
+	req := verifNondetU32()
+	verifAssume(req > 153)
+	c, err := NewClient(peer, WithMessageSize(req))
+	if err != nil {
+		verifReach("client-refused-msize")
+		return
+	}
+	verifReach("negotiated")
+	announced := peer.msize
+	// a server never raises msize above what the client offered
+	verifAssume(announced <= req)
+	f := c.newFile(1)
+	n := int(verifNondetU32())
+	verifAssume(n >= 0 && n <= 1<<24)
+	// bound the number of chunks so that the chunk loop unwinds
+	verifAssume(uint64(n) <= 3*uint64(c.payloadSize))
+	p := verifNondetBytesN(n)
+	off := int64(verifNondetU64() >> 2)
+	wn, werr := f.WriteAt(p, off)
+	verifAssert(werr == nil && wn == n, "WriteAt against an accepting peer writes everything")
+	if peer.requests > 1 {
+		verifReach("chunked")
+	}
+	verifAssert(peer.maxReq <= uint64(announced), "every Twrite frame <= announced msize")
+}
+
+// VerifH_C13_ClientRead: every Tread asks for a count whose reply fits.
+func VerifH_C13_ClientRead() {
+	peer := &verifPeer{msize: verifNondetU32(), vers: "9P2000.L"}
+	req := verifNondetU32()
+	verifAssume(req > 153)
+	c, err := NewClient(peer, WithMessageSize(req))
+	if err != nil {
+		verifReach("client-refused-msize")
+		return
+	}
+	verifReach("negotiated")
+	announced := peer.msize
+	verifAssume(announced <= req)
+	f := c.newFile(1)
+	n := int(verifNondetU32())
+	verifAssume(n >= 0 && n <= 1<<24)
+	p := verifNondetBytesN(n)
+	_, _ = f.ReadAt(p, 0)
+	verifReach("read-issued")
+	verifAssert(peer.maxReq <= uint64(announced), "every Tread frame <= announced msize")
+	verifAssert(peer.maxReply <= uint64(announced), "every Tread count + 11 <= announced msize")
 }
